@@ -225,6 +225,7 @@ def run_impl(role, n_apps, events, factory, stop_on_exc=True):
             from bromelia.avps import SessionIdAVP, OriginHostAVP
             req = DiameterRequest(command_code=316, application_id=(16777251).to_bytes(4, "big"))
             req.header.hop_by_hop = ev[1].to_bytes(4, "big")
+            req.header.end_to_end = (ev[1] ^ 0x5A5A5A5A).to_bytes(4, "big")     # so that histories can answer it
             req.append(SessionIdAVP(b"s;3;4"))
             req.append(OriginHostAVP(psmdrv.LHOST))
             sub_exc = node.submit(req)
@@ -450,7 +451,13 @@ def random_history(rng, role, names, length):
             evs.append(("i", name, rng.choice(ids) if rng.random() < 0.3 else rng.randrange(2 ** 32),
                         rng.choice(ids) if rng.random() < 0.3 else rng.randrange(2 ** 32)))
         elif k == "u":
-            evs.append(("u", rng.choice(ids[1:]) if rng.random() < 0.4 else rng.randrange(1, 2 ** 32)))
+            uid = rng.choice(ids[1:]) if rng.random() < 0.4 else rng.randrange(1, 2 ** 32)
+            evs.append(("u", uid))
+            if rng.random() < 0.5:
+                # the peer answers the local request (identifiers of the request), possibly twice
+                evs += [("t",), ("i", "app.ans", uid, uid ^ 0x5A5A5A5A), ("t",)]
+                if rng.random() < 0.5:
+                    evs += [("i", "app.ans", uid, uid ^ 0x5A5A5A5A), ("t",)]
         else:
             evs.append((k,))
     return evs
